@@ -194,6 +194,7 @@ func (ctx *context) ResolveAndCompile(pathname string, opts py.CompileOpts) (py.
 }
 
 func (ctx *context) pushBusy() error {
+	verifYield(ctx, "push")
 	ctx.mu.Lock()
 	defer ctx.mu.Unlock()
 	if ctx.closing {
@@ -204,21 +205,29 @@ func (ctx *context) pushBusy() error {
 }
 
 func (ctx *context) popBusy() {
+	verifYield(ctx, "pop")
 	ctx.running.Done()
 }
 
 // See interface py.Context defined in py/run.go
 func (ctx *context) Close() error {
+	verifYield(ctx, "close.once")
 	ctx.closeOnce.Do(func() {
+		verifYield(ctx, "close.closing")
 		ctx.mu.Lock()
 		ctx.closing = true
 		ctx.mu.Unlock()
+		verifYield(ctx, "close.wait")
 		ctx.running.Wait()
+		verifYield(ctx, "close.closed")
 		ctx.closed = true
 
 		// Give each module a chance to release resources
+		verifYield(ctx, "close.callbacks")
 		ctx.store.OnContextClosed()
+		verifYield(ctx, "close.done")
 		close(ctx.done)
+		verifYield(ctx, "close.exit")
 	})
 	return nil
 }
